@@ -226,7 +226,11 @@ func (e *relayEnv) stop() {
 	}
 }
 
-func startRelayEnv(res *hx.Result, suffix string, agentArgs []string, procEnv []string, agentVia string) (*relayEnv, error) {
+func startRelayEnv(res *hx.Result, suffix string, agentArgs []string, procEnv []string, agentVia string, cfgs ...hx.AgentConfig) (*relayEnv, error) {
+	cfg := hx.AgentConfig{}
+	if len(cfgs) > 0 {
+		cfg = cfgs[0]
+	}
 	e := &relayEnv{md: hx.StartMetadata(), backend: newEchoBackend()}
 	var err error
 	e.proxy, e.port, err = hx.StartProxy(hx.Bin("proxy"+suffix), procEnv)
@@ -238,7 +242,7 @@ func startRelayEnv(res *hx.Result, suffix string, agentArgs []string, procEnv []
 	if agentVia != "" {
 		proxyURL = agentVia
 	}
-	e.agent, err = hx.StartAgent(hx.Bin("agent"+suffix), e.md, proxyURL, e.backend.addr(), "agent", agentArgs, procEnv)
+	e.agent, err = hx.StartAgentCfg(hx.Bin("agent"+suffix), e.md, proxyURL, e.backend.addr(), "agent", cfg, agentArgs, procEnv)
 	if err != nil {
 		e.stop()
 		return nil, err
@@ -313,10 +317,32 @@ func relayDriver(a *Args) {
 	if a.Mode == "race" {
 		segments = 1
 	}
+	// the relay's guarantees do not depend on the agent's other settings (spec/AgentConfig.tla, Neutral.C01): the
+	// first segment runs under the default configuration, the others under the configurations chosen for this run
+	var others []hx.AgentConfig
+	for _, c := range hx.AgentConfigs() {
+		if c.Name() != "default" {
+			others = append(others, c)
+		}
+	}
+	if a.Mode == "" && len(others) > 0 {
+		res.Extra["agent_configurations"] = len(others) + 1
+		if segments < len(others)+1 {
+			segments = len(others) + 1
+		}
+	}
 	n := 0
 	for s := 0; s < segments; s++ {
-		hx.Reset(fmt.Sprintf("relay-%s-%d", a.Mode, s), "relay-burst"+suffix)
-		env, err := startRelayEnv(res, suffix, nil, procEnv, "")
+		cfg := hx.AgentConfig{}
+		if a.Mode == "" && s > 0 && len(others) > 0 {
+			cfg = others[(s-1)%len(others)]
+		}
+		sigCfg := ""
+		if cfg.Name() != "default" {
+			sigCfg = "@" + cfg.Name()
+		}
+		hx.Reset(fmt.Sprintf("relay-%s-%d", a.Mode, s), "relay-burst"+suffix+sigCfg)
+		env, err := startRelayEnv(res, suffix, nil, procEnv, "", cfg)
 		if err != nil {
 			res.Bad("cannot start proxy/agent: %v", err)
 			return
@@ -346,7 +372,7 @@ func relayDriver(a *Args) {
 				}(paths[c])
 			}
 			wg.Wait()
-			res.Case(fmt.Sprintf("burst-%d-clients", clients), map[string]interface{}{"segment": s, "burst": b, "clients": clients, "first_path": paths[0]})
+			res.Case(fmt.Sprintf("burst-%d-clients%s", clients, sigCfg), map[string]interface{}{"segment": s, "burst": b, "clients": clients, "first_path": paths[0], "agent_configuration": cfg.Name()})
 		}
 		env.finalEvent(res)
 		env.stop()
